@@ -17,6 +17,9 @@ for op in ("-", "!", "^"):
 for op in ("+", "-", "*", "/", "%", "&", "|", "<<", ">>", "==", "!=", "<", "<=", ">", ">=", "&&", "||"):
     t("binL" + op, "", " %s 2" % op)
     t("binR" + op, "7 %s " % op, "")
+for op in ("+", "-", "*", "|", "&", "%", "<<", "<", "==", "!=", "&&", "||"):
+    t("binL" + op + "-then-store", "", " %s bump()" % op)       # the right operand overwrites the place the left one was read from
+t("list-then-store", "[", ", bump()]"); t("args-then-store", "f2(", ", bump())"); t("map-then-store", "{\"a\": ", ", \"b\": bump()}")
 t("plus-str-l", "", ' + "s"'); t("plus-str-r", '"s" + ', "")
 t("plus-list-l", "", " + [9]"); t("plus-list-r", "[9] + ", "")
 t("str-mul", '"ab" * ', ""); t("mul-str", "", " * 2")
